@@ -196,25 +196,17 @@ func runC24(c *Ctx) {
 			fmt.Sprintf("level %q of the grammar is not `x := p.%s(); for p.tok == %q { x = %s(x, p.%s()) }` (first=%v loop=%v build=%v): operator precedence or associativity changed", lv.fn, lv.sub, lv.tok, lv.ctor, lv.sub, okFirst, okLoop, okBuild))
 	}
 	if fd := p.MustFunc(rG, bt, "exprParser.not"); fd != nil {
-		sq := func(e ast.Expr) string { return strings.ReplaceAll(types.ExprString(e), " ", "") }
-		negBranch, plain := false, false
-		for i, s := range fd.Body.List {
-			switch st := s.(type) {
-			case *ast.IfStmt:
-				if strings.HasSuffix(sq(st.Cond), `.tok=="!"`) && len(st.Body.List) > 0 {
-					if ret, ok := st.Body.List[len(st.Body.List)-1].(*ast.ReturnStmt); ok && len(ret.Results) == 1 {
-						r := sq(ret.Results[0])
-						negBranch = strings.HasPrefix(r, "not(") && strings.HasSuffix(r, ".atom())")
-					}
-				}
-			case *ast.ReturnStmt:
-				if i == len(fd.Body.List)-1 && len(st.Results) == 1 && strings.HasSuffix(sq(st.Results[0]), ".atom()") && !strings.Contains(sq(st.Results[0]), "not(") {
-					plain = true
-				}
+		// decided on the function's decision tree, not on its layout: every path is followed with the number of
+		// tokens lexed so far and what the tests on the path established about them
+		paths, why := c24NotPaths(fd)
+		want := map[string]bool{"t1!=! -> atom@1": true, "t1==! t2==! -> error": true, "t1==! t2!=! -> not(atom)@2": true}
+		good := why == "" && len(paths) == len(want)
+		for _, pt := range paths {
+			if !want[pt] {
+				good = false
 			}
 		}
-		good := negBranch && plain
-		c.Check(good, rG, "not", p.Pos(fd.Pos()), "! atom | atom", "the not level no longer parses `! atom | atom`")
+		c.Check(good, rG, "not", p.Pos(fd.Pos()), "! atom | atom, `!!` rejected", "the not level no longer parses `! atom | atom` with a double negation rejected; its paths are ["+strings.Join(paths, "; ")+"] "+why)
 	}
 	for ctor, typ := range map[string]string{"or": "OrExpr", "and": "AndExpr", "not": "NotExpr", "tag": "TagExpr"} {
 		fd := p.MustFunc(rG, bt, ctor)
